@@ -20,7 +20,7 @@ from fractions import Fraction
 import geom
 from common import CORPUS_DIR, call, frac
 
-RULE = ("histories of 3..12 operations (add / remove / assign with all or some obstacle ids and all or some time steps / "
+RULE = ("400 (quick) / 8 x 840 (thorough) histories after the corpus, each of 3..14 operations (add / remove / assign with all or some obstacle ids and all or some time steps / "
         "re-open through an XML or protobuf file with lanelet_assignment=True) over 1..5 obstacles (static, dynamic with a "
         "trajectory of 1..5 states, dynamic without prediction; rectangle axis-aligned or rotated, circle, polygon, shape group) "
         "on networks of 2..7 lanelets (parallel lanes sharing a boundary, successor lanes, a crossing lane, a bent lane, a far "
@@ -571,8 +571,8 @@ def judge(w, op, opname, inside, shape_mode, st, sub):
                 if rc is None and rs is None:
                     continue
                 cm, cq, sm, sq, half = w.brute(oid, t)
-                if cq or sq:
-                    ctx.excluded += 1
+                if (cq or sq) and w.first(("amb", oid, t)):
+                    ctx.excluded += 1          # one ambiguous (obstacle, time step): the ambiguous lanelets are not judged
                 # a wrong set is reported once, after the operation that produced it (it stays on the object afterwards)
                 if rc is not None and not (cm <= set(rc) <= cm | cq) and w.first(("c", oid, t, where, tuple(rc))):
                     fail(ctx, f"C07/{opname}/center-set-wrong/{o['kind']}",
@@ -625,8 +625,8 @@ def opname_of(op):
 
 def run_case(ctx, case, tags=True):
     w = World(ctx, case)
-    ctx.case(case)
     ops = case["ops"]
+    removed_after = False
     # parameters of the model
     look = call(w.lookups)
     inside, shape_mode, assigned = set(), True, False
@@ -649,8 +649,10 @@ def run_case(ctx, case, tags=True):
                 ctx.tag("op/readd")
             inside.add(op[1])
         elif op[0] == "remove" and ok:
-            if tags and assigned:
-                ctx.tag("op/remove-after-assign")
+            if assigned:
+                removed_after = True
+                if tags:
+                    ctx.tag("op/remove-after-assign")
             inside.discard(op[1])
         elif op[0] == "assign":
             if op[3]:
@@ -671,13 +673,16 @@ def run_case(ctx, case, tags=True):
             look2 = call(w.lookups)
             if look[0] == "ok" and look2[0] == "ok" and look2[1] != look[1]:
                 ctx.excluded += 1
+                ctx.tag("reopen/geometry-changed-by-file")
                 ops = ops[:k]
                 break
         st = observe(w.sc, w.objs)
         impl.append({"ok": st})
         judge(w, op, opname, inside, shape_mode, st, sub)
+    beyond = False
     if tags:
-        tag_case(ctx, w, case)
+        beyond = tag_case(ctx, w, case)
+    ctx.case(case, nontrivial=assigned and (beyond or removed_after))
     if look[0] == "err":
         # the library's own lookup refuses an occupancy of the case: nothing to parametrise the model with
         kinds = "/".join(sorted({top_kind(o["shape"]) for o in case["obstacles"]}))
@@ -693,6 +698,7 @@ def run_case(ctx, case, tags=True):
 
 
 def tag_case(ctx, w, case):
+    beyond = False
     for o in case["obstacles"]:
         ctx.tag("kind/" + o["kind"])
         ctx.tag("shape/" + top_kind(o["shape"]))
@@ -704,6 +710,7 @@ def tag_case(ctx, w, case):
                 continue
             cm, cq, sm, sq, _ = r[1]
             if sm - cm:
+                beyond = True
                 ctx.tag("geo/shape-beyond-center")
             if not sm and not sq:
                 ctx.tag("geo/off-road")
@@ -711,6 +718,7 @@ def tag_case(ctx, w, case):
                 ctx.tag("geo/multi-lanelet-center")
             if sq:
                 ctx.tag("geo/touching")
+    return beyond
 
 
 def run(ctx):
